@@ -111,6 +111,7 @@ def run_property(prop, tier="quick", seed=0, patch=None, quiet=False, only_units
                     out["undecided"].append((r.h.unit, r.reason))
                 elif r.status == "failed":
                     for desc, loc in r.failed_checks:
+                        desc = desc.strip().strip('"')
                         m = re.match(r"(C\d\d\.[\w.]+)", desc)
                         if m:
                             ob_id = m.group(1)
